@@ -116,7 +116,7 @@ impl Prop for C05 {
         "C05"
     }
     fn rule(&self) -> &'static str {
-        "completeness: every box of 9 styles x inner width 0..12 (thorough 0..60) x inner height 0..6 (thorough 0..30) x offsets x interiors {empty, each of the words a / ok / no / Oslo / v2 flush with the left wall and flush with the right wall} \
+        "completeness: every box of 13 styles (4 of them mixing ASCII and box-drawing border characters) x inner width 0..12 (thorough 0..60) x inner height 0..6 (thorough 0..30) x offsets x interiors {empty, each of the words a / ok / no / Oslo / v2 flush with the left wall and flush with the right wall} \
          x side patterns (all strings over {|,:,!} with at least one '|' for h<=4 (thorough 6), else one dashed stretch at every position) must be exactly one rect with the predicted x,y,width,height,rx,class and nothing but the interior labels; \
          soundness: every non-filled rect in every output of these families, of all grids over the 11 box characters of 2x3 and 3x2 (quick: one seed-selected 1/16 slice), all 3x3 grids over {space,-,|,+}, \
          and boxes with 1 (thorough 2) replaced cells must have corner characters at its corners and edge-carrying characters along all four edges. \
